@@ -139,7 +139,7 @@ Proof.
 Qed.
 
 (* ... and with the empty completed definitions of the missing output predicates
-   (/repo 70e6ace): they ARE completed definitions (complete_definition of an empty entry) *)
+   (/repo 70e6ace, 18b2e85): they ARE completed definitions (complete_definition of an empty entry) *)
 Lemma empty_definition_classified q : classified (empty_definition q).
 Proof. left. unfold empty_definition. rewrite complete_definition_head. eauto. Qed.
 Lemma empty_definition_def_shape q : def_shape (psym q) (parity q) (empty_definition q).
@@ -149,14 +149,15 @@ Proof.
   pose proof (atomic_formula_from_pred q) as E. unfold hatom_pred in E.
   rewrite <- E at 1 2. exact H.
 Qed.
-Lemma missing_outputs_classified outs D f : In f (missing_output_definitions outs D) -> classified f.
+Lemma missing_outputs_classified outs occ D f : In f (missing_output_definitions outs occ D) -> classified f.
+
 Proof.
   unfold missing_output_definitions. intros Hf. apply in_map_iff in Hf. destruct Hf as [q [<- _]].
   apply empty_definition_classified.
 Qed.
-Theorem translated_classified_ext P G m ins outs D :
+Theorem translated_classified_ext P G m ins outs occ D :
   TauStar.tau_star P = Some G -> completion (rp_theory m G) ins = Some D ->
-  forall d, In d (D ++ missing_output_definitions outs D) -> classified d.
+  forall d, In d (D ++ missing_output_definitions outs occ D) -> classified d.
 Proof.
   intros HG HD d Hd. apply in_app_or in Hd. destruct Hd as [Hd|Hd].
   - eapply translated_classified; eauto.
